@@ -121,7 +121,7 @@ def run(tier, seed, rep):
     rnd = random.Random(seed)
     thorough = tier == "thorough"
     r = core.model_check("MC_ProForma", "MC_ProForma.cfg", env={"OUT_FILE": str(core.workdir() / "unused.ndjson")},
-                         workers=4, xmx="6g")
+                         workers=8, xmx="6g")
     rep.add_mc("MC_ProForma (laws of reverse/shift/slice/split on the bounded space)", r)
     evs = []
     for i in range(5000 if thorough else 500):
